@@ -41,6 +41,13 @@ CLAIMED = {
          'calls under scopes, singleton uses, colliding constants in interactive mode, failed operations) followed by clear_config and a '
          'tail of observers and calls that is also run in a fresh interpreter with only the registrations.',
          BASE + 'config_str / operative_config_str are compared structurally through the stores here; their text is C06/C07.'),
+ 'C07': ('Theorems operative_param (exact per-parameter characterisation of what one call records) / operative_excludes_caller_supplied / '
+         'operative_only_supplied (binding, or configurable representable default) / call_records (entry update, frame for never-called '
+         'configurables) / rejected_call_records_nothing hold for every signature, lists, store, scope and argument split; the mirror is '
+         'tied to gin.config by comparing the parsed operative_config_str() after every call; the replay half (clear, parse the text, '
+         'repeat the calls: same arguments, same text) is executed on the real code for every generated case with a fixed store.',
+         BASE + 'Partial: the replay statement is not a Lean theorem (it needs the serialiser and parser models of C06/C02); it is checked '
+         'by real replay. Calls failing on a missing REQUIRED are excluded from replay (DESIGN §7 D23). Values reference-free here.'),
  'C08': ('Theorems inv_reachable / matching_spec / matching_nodup / getMatch_spec / getAll_spec hold for every history of '
          'insertions, removals and clears and every query; the trie mirror is tied to gin/selector_map.py by running the same random '
          'operation histories on both; an independent naive set-of-names oracle (incl. minimal_selector resolve-back and minimality, '
